@@ -1,6 +1,159 @@
-//! C38: not implemented yet.
+//! C38: histories of operations in one process; every produced asset is re-read at the end, and the first signing
+//! operation is repeated at the end.
+//! case (history): {mode:"history", dir, final_settings?, ops:[{op:"sign"|"read"|"ingredient"|"archive"|"legacy_settings", ...}]}
+//!   sign:       {fixture, format, alg, def, settings?}                      -> a new asset (slot = number of assets so far)
+//!   ingredient: {fixture, format, alg, def, settings?, ing:{fixture|slot, format}, relationship}   -> a new asset
+//!   archive:    {fixture, format, alg, def, settings?, ing:{fixture|slot, format}}                 -> a new asset
+//!   read:       {src:{fixture|slot, format}, settings?, tamper?}
+//!   legacy_settings: {json}     (the deprecated thread-local entry point Settings::from_string)
+//! result: {"r":"ok", "assets":[{slot, path, format, first, final}], "reads":[...], "resign":{first, again}|null, "trace":[op outcome..]}
+//! case (fresh): {mode:"fresh", path, format, settings?}  -> {"r":"ok", "json": stable report}
+use std::io::Cursor;
+
+use c2pa::{Builder, Reader};
 use serde_json::{json, Value};
 
-pub fn run(_case: &Value) -> Value {
-    json!({"r": "unimplemented"})
+use crate::{c40::shape, e2e, util::*};
+
+fn settings_of(v: &Value) -> Option<String> {
+    v.get("settings").filter(|s| !s.is_null()).map(|s| s.to_string())
+}
+
+fn read_report(settings: Option<&str>, format: &str, bytes: &[u8]) -> Value {
+    match Reader::from_context(e2e::context(settings)).with_stream(format, Cursor::new(bytes.to_vec())) {
+        Ok(r) => json!({"ok": e2e::stable_json(&r), "state": format!("{:?}", r.validation_state())}),
+        Err(e) => json!({"err": err_class(&e)}),
+    }
+}
+
+struct Asset {
+    bytes: Vec<u8>,
+    format: String,
+    first: Value,
+}
+
+fn source_of(v: &Value, assets: &[Asset]) -> Option<(Vec<u8>, String)> {
+    if let Some(s) = v.get("slot").and_then(|s| s.as_u64()) {
+        let a = assets.get(s as usize)?;
+        Some((a.bytes.clone(), a.format.clone()))
+    } else {
+        let fx = v.get("fixture")?.as_str()?;
+        Some((e2e::fixture(fx), v["format"].as_str().unwrap_or("image/jpeg").to_string()))
+    }
+}
+
+fn tamper(op: &Value, mut bytes: Vec<u8>) -> Vec<u8> {
+    if let Some(ts) = op["tamper"].as_array() {
+        for t in ts {
+            if !bytes.is_empty() {
+                let n = bytes.len();
+                bytes[(u64_of(&t[0]) as usize) % n] ^= u64_of(&t[1]) as u8;
+            }
+        }
+    }
+    bytes
+}
+
+/// one signing-type operation; returns the signed bytes
+fn produce(op: &Value, assets: &[Asset]) -> c2pa::Result<Vec<u8>> {
+    let settings = settings_of(op);
+    let settings = settings.as_deref();
+    let kind = op["op"].as_str().unwrap_or("sign");
+    let format = op["format"].as_str().unwrap_or("image/jpeg");
+    let src = e2e::fixture(op["fixture"].as_str().unwrap_or("earth_apollo17.jpg"));
+    let def = op["def"].to_string();
+    let signer = e2e::signer(op["alg"].as_str().unwrap_or("ed25519"));
+    let mut b = Builder::from_context(e2e::context(settings)).with_definition(def.as_str())?;
+    if kind == "ingredient" || kind == "archive" {
+        let (ib, ifmt) = source_of(&op["ing"], assets).ok_or(c2pa::Error::BadParam("no such ingredient source".into()))?;
+        let ij = json!({"title": "ing", "relationship": op["relationship"].as_str().unwrap_or("componentOf")}).to_string();
+        b.add_ingredient_from_stream(ij, &ifmt, &mut Cursor::new(ib))?;
+    }
+    if kind == "archive" {
+        let mut ar = Cursor::new(Vec::new());
+        b.to_archive(&mut ar)?;
+        ar.set_position(0);
+        b = Builder::from_context(e2e::context(settings)).with_archive(ar)?;
+    }
+    let mut input = Cursor::new(src);
+    let mut out = Cursor::new(Vec::new());
+    b.sign(signer.as_ref(), format, &mut input, &mut out)?;
+    Ok(out.into_inner())
+}
+
+fn sign_shape(settings: Option<&str>, format: &str, r: &c2pa::Result<Vec<u8>>) -> Value {
+    match r {
+        Ok(bytes) => match e2e::read(e2e::context(settings), format, bytes) {
+            Ok(rd) => json!({"ok": shape(&rd)}),
+            Err(e) => json!({"unreadable": err_class(&e)}),
+        },
+        Err(e) => json!({"err": err_class(e)}),
+    }
+}
+
+pub fn run(case: &Value) -> Value {
+    if case["mode"].as_str() == Some("fresh") {
+        let bytes = match std::fs::read(case["path"].as_str().unwrap_or("")) {
+            Ok(b) => b,
+            Err(e) => return json!({"r": "io", "msg": e.to_string()}),
+        };
+        let s = settings_of(case);
+        return json!({"r": "ok", "json": read_report(s.as_deref(), case["format"].as_str().unwrap_or("image/jpeg"), &bytes)});
+    }
+    let dir = case["dir"].as_str().unwrap_or("/tmp").to_string();
+    let _ = std::fs::create_dir_all(&dir);
+    let final_settings = case.get("final_settings").filter(|s| !s.is_null()).map(|s| s.to_string());
+    let mut assets: Vec<Asset> = vec![];
+    let mut reads: Vec<Value> = vec![];
+    let mut trace: Vec<Value> = vec![];
+    let mut first_sign: Option<(Value, Value)> = None; // (op, shape)
+    for op in case["ops"].as_array().cloned().unwrap_or_default() {
+        match op["op"].as_str().unwrap_or("") {
+            "legacy_settings" => {
+                #[allow(deprecated)]
+                let r = c2pa::settings::Settings::from_string(&op["json"].to_string(), "json");
+                trace.push(json!({"op": "legacy_settings", "ok": r.is_ok()}));
+            }
+            "read" => {
+                let s = settings_of(&op);
+                match source_of(&op["src"], &assets) {
+                    Some((bytes, fmt)) => {
+                        let bytes = tamper(&op, bytes);
+                        let rep = read_report(s.as_deref(), &fmt, &bytes);
+                        trace.push(json!({"op": "read", "out": rep.get("state").cloned().unwrap_or(rep["err"].clone())}));
+                        reads.push(rep);
+                    }
+                    None => trace.push(json!({"op": "read", "out": "no-source"})),
+                }
+            }
+            _ => {
+                let s = settings_of(&op);
+                let format = op["format"].as_str().unwrap_or("image/jpeg").to_string();
+                let r = produce(&op, &assets);
+                let sh = sign_shape(s.as_deref(), &format, &r);
+                if first_sign.is_none() && op["op"].as_str() == Some("sign") {
+                    first_sign = Some((op.clone(), sh.clone()));
+                }
+                trace.push(json!({"op": op["op"], "out": if r.is_ok() { json!("signed") } else { sh["err"].clone() }}));
+                if let Ok(bytes) = r {
+                    let first = read_report(final_settings.as_deref(), &format, &bytes);
+                    assets.push(Asset { bytes, format, first });
+                }
+            }
+        }
+    }
+    // the end of the history: re-read everything, repeat the first signing operation
+    let mut out_assets = vec![];
+    for (i, a) in assets.iter().enumerate() {
+        let path = format!("{dir}/asset_{i}");
+        let _ = std::fs::write(&path, &a.bytes);
+        let fin = read_report(final_settings.as_deref(), &a.format, &a.bytes);
+        out_assets.push(json!({"slot": i, "path": path, "format": a.format, "first": a.first, "final": fin}));
+    }
+    let resign = first_sign.map(|(op, sh)| {
+        let s = settings_of(&op);
+        let r = produce(&op, &[]);
+        json!({"first": sh, "again": sign_shape(s.as_deref(), op["format"].as_str().unwrap_or("image/jpeg"), &r)})
+    });
+    json!({"r": "ok", "assets": out_assets, "reads": reads.len(), "resign": resign, "trace": trace})
 }
